@@ -288,6 +288,125 @@ def directed_sessions():
     return out
 
 
+RAW_PRELUDE = ["wopen", "wsrc 1", "wsig 3 1 0 8196 1000 100 10 10 10 10 10", "wfsr 3 0 300", "wud 5 1 100", "wanno 0 10 0 1 0 5",
+               "wanno 3 20 0 2 0 7", "wutc 3 100 1000", "wfsr 3 300 2500", "wclose"]
+
+
+def random_raw_session(rng):
+    """raw calls with arbitrary tags, lengths and offsets, on every kind of file and in every mode"""
+    calls = []
+    for _ in range(rng.randint(1, 3)):
+        calls.append("xopen %d %d" % (rng.choice([0, 0, 0, 6, 6, 5, 2, 3, 4, 1]), rng.choice([0, 0, 1, 2, 2, 3])))
+        for _ in range(rng.randint(3, 40)):
+            r = rng.random()
+            if r < 0.2:
+                calls.append("xrd %d" % rng.choice([0, 1, 7, 8, 64, 200, 4096, 100000]))
+            elif r < 0.3:
+                calls.append(rng.choice(["xrdhdr", "xrdpay %d" % rng.choice([0, 8, 64, 100000])]))
+            elif r < 0.45:
+                calls.append("xwr %d %d %d" % (rng.choice([0, 1, 2, 32, 34, 35, 36, 64, 255, 200]), rng.choice([0, 3, 4095, 65535]), rng.choice([0, 1, 4, 5, 9, 252, 256, 257, 5000, 70000])))
+            elif r < 0.52:
+                n = rng.choice([0, 1, 9, 300, 70000])
+                calls.append("xwrhdr %d %d %d" % (rng.choice([64, 255, 34]), rng.choice([0, 3]), n))
+                calls.append("xwrpay %d" % (n if rng.random() < 0.7 else rng.choice([0, 1, 9, 300, 70000])))
+            elif r < 0.65:
+                calls.append("xseek %d" % rng.choice([0, 1, 8, 31, 32, 33, 40, 64, 200, 208, 1000, 100000, 2147483647, -1, -8, -3, -3]))
+            else:
+                calls.append(rng.choice(["xend", "xtell", "xscan", "xflush", "xnext", "xnext", "xprev", "xinext", "xiprev", "xver", "xbk"]))
+        calls.append("xclose")
+    calls.append("xtag %d" % rng.randint(0, 255))
+    calls.append("xdt %d" % rng.choice([0, 259, 8196, 65535, 2147483647]))
+    return RAW_PRELUDE + calls
+
+
+def raw_part(ck, exe, sc, rng, thorough):
+    """The raw chunk API (C10 names it): graph of RawGen.tla, every (state, call) pair executed, plus random sessions;
+    judged by RawTrace.tla.  Returns the number of violations reported."""
+    dot = os.path.join(sc, "rawgen")
+    r = C.tlc("RawGen", "RawGen.cfg", workers=1, timeout=600, heap="4g", args=["-fp", "0", "-dump", "dot,actionlabels", dot])
+    if not ck.add_mc("RawGen (all raw-API sessions over the call alphabet)", r):
+        raise C.ToolFailure("Raw.tla is inconsistent: %s" % r.violated)
+    init, out = parse_graph(dot + ".dot")
+    os.remove(dot + ".dot")
+    pairs = {(u, c) for u in out for c in out[u]}
+    uncovered = set(pairs)
+    learned = {}
+    sessions = []
+    base = 500000
+    rounds = 0
+    while uncovered and rounds < 6:
+        rounds += 1
+        scripts = plan(init, out, learned, uncovered, max_scripts=3000, max_len=120)
+        if not scripts:
+            break
+        res = run_sessions(exe, sc, [RAW_PRELUDE + s_ for s_ in scripts], base)
+        base += len(scripts)
+        before = len(uncovered)
+        for calls, (lines, ab) in zip(scripts, res):
+            sessions.append((RAW_PRELUDE + calls, lines, ab))
+            u = init
+            k = 0
+            for ln in lines:
+                if not ln.startswith('{"e":"Call"'):
+                    continue
+                ev = json.loads(ln)
+                if not ev["op"].startswith("x"):
+                    continue
+                c = calls[k] if k < len(calls) else None
+                while c is not None and c.split()[0] != ev["op"]:
+                    k += 1
+                    c = calls[k] if k < len(calls) else None
+                if c is None:
+                    break
+                k += 1
+                if c not in out[u]:
+                    break
+                uncovered.discard((u, c))
+                ok = (ev["out"][1] == 1) if ev["op"] == "xopen" else True
+                v = target(out, learned, u, c, rc=0 if ok else 1)
+                if len(out[u][c]) > 1:
+                    learned[(u, c)] = v
+                u = v
+        ck.log("raw API round %d: %d sessions, %d pairs newly covered, %d left" % (rounds, len(scripts), before - len(uncovered), len(uncovered)))
+        if before == len(uncovered):
+            break
+    nrand = 6000 if thorough else 250
+    rscripts = [random_raw_session(rng) for _ in range(nrand)]
+    res = run_sessions(exe, sc, rscripts, base)
+    for calls, (lines, ab) in zip(rscripts, res):
+        sessions.append((calls, lines, ab))
+    trace = os.path.join(sc, "raw.ndjson")
+    ncalls = 0
+    with open(trace, "w") as f:
+        for x, (calls, lines, ab) in enumerate(sessions, 1):
+            f.write('{"e":"Reset","x":%d}\n' % x)
+            for ln in lines:
+                f.write(ln + "\n")
+                ncalls += ln.startswith('{"e":"Call","i":') and '"op":"x' in ln[:40]
+    v = C.validate_trace_parallel("RawTrace", "RawTrace.cfg", trace, parts=8, timeout=1800)
+    ck.log("raw API: %d sessions, %d raw calls judged by RawTrace: %d rejection(s); %d of %d (state, call) pairs executed"
+           % (len(sessions), ncalls, len(v.rejections), len(pairs) - len(uncovered), len(pairs)))
+    lines_all = open(trace).read().split("\n") if v.rejections else None
+    for (x, line, why) in v.rejections:
+        ev = json.loads(lines_all[line - 1])
+        calls, lines, ab = sessions[x - 1]
+        rp = os.path.join(sc, "raw_x%d.script.txt" % x)
+        open(rp, "w").write("\n".join(calls) + "\n")
+        files = [rp]
+        if ab and ab.get("stderr"):
+            re_ = os.path.join(sc, "raw_x%d.stderr.txt" % x)
+            open(re_, "w").write(ab["stderr"])
+            files.append(re_)
+        ck.violation({"where": "implementation", "api": "raw", "session": x, "reason": why, "op": ev.get("op", ev.get("call", "").split(" ")[0] if ev.get("call") else ""),
+                      "kind": ev.get("kind", ""), "at": ev.get("where", ""),
+                      "call": ev.get("call", " ".join([ev.get("op", "")] + [str(a) for a in ev.get("a", [])]))}, files)
+    ck.cov["raw_state_call_pairs"] = len(pairs)
+    ck.cov["raw_state_call_pairs_executed"] = len(pairs) - len(uncovered)
+    ck.cov["raw_random_sessions"] = nrand
+    ck.cov["evaluations"] = ck.cov.get("evaluations", 0) + ncalls
+    ck.cov["traces_validated_against_impl"] = ck.cov.get("traces_validated_against_impl", 0) + len(sessions) - len({r_[0] for r_ in v.rejections})
+
+
 def run(tier):
     ck = C.Check("C10")
     rng = random.Random(C.seed() * 7919 + 10)
@@ -430,4 +549,5 @@ def run(tier):
         "threaded-writer data calls are asynchronous: their return code is not judged for invalid ids, only crash / stray access / leak",
         "leak = library heap blocks (malloc/calloc/realloc/free of the library objects, counted by link-time wraps) not released by close",
     ]
+    raw_part(ck, exe, sc, rng, thorough)
     return ck.finish()
